@@ -79,6 +79,14 @@ def generate(tier, seed, ctx):
         if s2:          # (a wrong-length signature is itself reported through siglen)
             s2[rng.randrange(len(s2))] ^= 1 << rng.randrange(8)
             cases.append(('altered_signature', sk.verify_key.encode(), msg, bytes(s2), 0))
+        # an altered signature of a different length, with bytes moved across the signature | message boundary
+        pk = sk.verify_key.encode()
+        if msg:
+            cases.append(('boundary_shift_right', pk, msg[1:], sig + msg[:1], 0))
+        cases.append(('boundary_shift_left', pk, sig[60:] + msg, sig[:60], 0))
+        cases.append(('empty_signature', pk, sig + msg, b'', 0))
+        cases.append(('signature_extended', pk, msg, sig + b'\x00', 0))
+        cases.append(('signature_truncated', pk, msg, sig[:63], 0))
         for label, pub, m, s, genuine in cases:
             rec = {'op': 'sig', 'label': label, 'genuine': genuine, 'siglen': len(sig)}
             try:
